@@ -9,6 +9,7 @@ package doccomposer
 import (
 	"encoding/json"
 	"fmt"
+	"strconv"
 	"strings"
 
 	jsonpatch "github.com/evanphx/json-patch"
@@ -103,12 +104,6 @@ func applyJSON(doc document.Document, entry interface{}) (result document.Docume
 		return nil, err
 	}
 
-	for _, op := range jsonPatches {
-		if err := checkNotIntoOwnDescendant(op); err != nil {
-			return nil, err
-		}
-	}
-
 	docBytes, err := doc.Bytes()
 	if err != nil {
 		return nil, err
@@ -117,6 +112,10 @@ func applyJSON(doc document.Document, entry interface{}) (result document.Docume
 	// the operations are applied one at a time, each on the re-serialized result of the previous one: the library's
 	// copy shares the copied value, so a later operation could otherwise copy a value into what is (by reference) itself
 	for i := range jsonPatches {
+		if err = checkCopyMove(docBytes, jsonPatches[i]); err != nil {
+			return nil, err
+		}
+
 		docBytes, err = jsonPatches[i : i+1].Apply(docBytes)
 		if err != nil {
 			return nil, err
@@ -126,10 +125,12 @@ func applyJSON(doc document.Document, entry interface{}) (result document.Docume
 	return document.FromBytes(docBytes)
 }
 
-// checkNotIntoOwnDescendant rejects a copy/move operation whose target lies inside its own source
-// (RFC 6902 forbids this for move). The JSON patch library copies by reference, so such a copy yields a
-// cyclic document and marshalling it overflows the stack - which cannot be recovered from.
-func checkNotIntoOwnDescendant(op map[string]*json.RawMessage) error {
+// checkCopyMove rejects a copy/move operation the JSON patch library cannot be trusted with: one whose destination
+// lies inside its own source (the library copies by reference, the document becomes cyclic and marshalling it
+// overflows the stack - which cannot be recovered from), and one whose destination is an array index beyond the end
+// of the array (RFC 6902 4.1; the library allocates index+1 elements). Both locations are resolved against the
+// current document, since one location has many spellings ("/a/0", "/a/00", "/a/+0"; "~x" and "~0x").
+func checkCopyMove(docBytes []byte, op map[string]*json.RawMessage) error {
 	var kind, path, from string
 
 	for key, target := range map[string]*string{"op": &kind, "path": &path, "from": &from} {
@@ -140,11 +141,159 @@ func checkNotIntoOwnDescendant(op map[string]*json.RawMessage) error {
 		}
 	}
 
-	if (kind == "copy" || kind == "move") && strings.HasPrefix(path, from+"/") {
+	if kind != "copy" && kind != "move" {
+		return nil
+	}
+
+	var root interface{}
+	if err := json.Unmarshal(docBytes, &root); err != nil {
+		return nil //nolint:nilerr // left to the library
+	}
+
+	source, ok := canonicalLocation(root, from)
+	if !ok {
+		return nil // no such source: the library reports the error
+	}
+
+	if kind == "move" {
+		root = removeLocation(root, source)
+	}
+
+	destination, ok := canonicalLocation(root, path)
+	if !ok {
+		return nil
+	}
+
+	if len(destination) > len(source) && equalTokens(destination[:len(source)], source) {
 		return fmt.Errorf("apply JSON patch: cannot %s '%s' into its own descendant '%s'", kind, from, path)
 	}
 
+	parent := lookup(root, destination[:len(destination)-1])
+	if array, isArray := parent.([]interface{}); isArray {
+		if index, err := strconv.Atoi(destination[len(destination)-1]); err == nil && index > len(array) {
+			return fmt.Errorf("apply JSON patch: cannot %s to index %d of an array of %d elements", kind, index, len(array))
+		}
+	}
+
 	return nil
+}
+
+// canonicalLocation resolves a JSON pointer against the document the way the JSON patch library does and returns the
+// location as decoded member names and normalised array indices; ok is false if the parent of the location is missing.
+func canonicalLocation(root interface{}, pointer string) (location []string, ok bool) {
+	split := strings.Split(pointer, "/")
+	if len(split) < 2 {
+		return nil, false
+	}
+
+	current := root
+
+	for i, token := range split[1:] {
+		token = strings.ReplaceAll(strings.ReplaceAll(token, "~1", "/"), "~0", "~")
+		last := i == len(split)-2
+
+		switch node := current.(type) {
+		case map[string]interface{}:
+			location = append(location, token)
+
+			if !last {
+				next, found := node[token]
+				if !found {
+					return nil, false
+				}
+
+				current = next
+			}
+		case []interface{}:
+			index, err := strconv.Atoi(token)
+			if err != nil {
+				if last && token == "-" {
+					return append(location, token), true
+				}
+
+				return nil, false
+			}
+
+			location = append(location, strconv.Itoa(index))
+
+			if !last {
+				if index < 0 || index >= len(node) {
+					return nil, false
+				}
+
+				current = node[index]
+			}
+		default:
+			return nil, false
+		}
+	}
+
+	return location, true
+}
+
+func lookup(root interface{}, location []string) interface{} {
+	current := root
+
+	for _, token := range location {
+		switch node := current.(type) {
+		case map[string]interface{}:
+			current = node[token]
+		case []interface{}:
+			index, err := strconv.Atoi(token)
+			if err != nil || index < 0 || index >= len(node) {
+				return nil
+			}
+
+			current = node[index]
+		default:
+			return nil
+		}
+	}
+
+	return current
+}
+
+// removeLocation returns the document without the value at the location (what a move does before it sets the value).
+func removeLocation(root interface{}, location []string) interface{} {
+	if len(location) == 0 {
+		return root
+	}
+
+	switch node := root.(type) {
+	case map[string]interface{}:
+		if len(location) == 1 {
+			delete(node, location[0])
+		} else if child, found := node[location[0]]; found {
+			node[location[0]] = removeLocation(child, location[1:])
+		}
+
+		return node
+	case []interface{}:
+		index, err := strconv.Atoi(location[0])
+		if err != nil || index < 0 || index >= len(node) {
+			return node
+		}
+
+		if len(location) == 1 {
+			return append(node[:index:index], node[index+1:]...)
+		}
+
+		node[index] = removeLocation(node[index], location[1:])
+
+		return node
+	default:
+		return root
+	}
+}
+
+func equalTokens(a, b []string) bool {
+	for i := range a {
+		if a[i] != b[i] {
+			return false
+		}
+	}
+
+	return true
 }
 
 func applyRecover(replaceDoc interface{}) (document.Document, error) {
